@@ -75,6 +75,15 @@ def params(fn, l, cap, w, r, uf, ub, scale, mk, claim, pre=(), keep=(), memwf=0)
 
 
 def record_fn(cfg):
+    from .common import timed, Hung
+    try:
+        return timed('ops-fn', lambda: _record_fn(cfg), 60)
+    except Hung as ex:
+        return {'cls': 'ops:' + cfg['fn'], 'cfg': cfg, 'hasacts': 0, 'acts': [], 'raised': 'Hung: ' + str(ex),
+                'ev': [[OEND, 0, 0, 0]], 'p': params(cfg['fn'], cfg['l'], (0, 0), (0, 0), (0, 0), 0, 0, 1, 0, [[-1], [-1]])}
+
+
+def _record_fn(cfg):
     """cfg: {"fn", "l", "cm" | "cvect", "costs": (uf, ub, wd, rd, scale) | hier: (uf, ub, wvect, rvect, scale)}.
     Costs are integers over `scale`; the library is called with cost/scale (floats when scale > 1)."""
     record.lib()
@@ -154,6 +163,15 @@ def enc_act(a):
 
 
 def record_class(cfg):
+    from .common import timed, Hung
+    try:
+        return timed('ops-cls', lambda: _record_class(cfg), 60)
+    except Hung as ex:
+        return {'cls': 'conv:' + cfg['cls'], 'cfg': cfg, 'hasacts': 1, 'acts': [], 'raised': 'Hung: ' + str(ex),
+                'ev': [[OEND, 0, 0, 0]], 'p': params(cfg['cls'], cfg['max_n'] - 1, (0, 0), (0, 0), (0, 0), 0, 0, 1, 0, [[-1], [-1]])}
+
+
+def _record_class(cfg):
     """A Revolve-family class: its private operation list and the stream it makes of it."""
     record.lib()
     import checkpoint_schedules as cs
